@@ -5,7 +5,7 @@ use crate::prng::Rng;
 use crate::props::engine::*;
 use gene::values::Number;
 use gene::FieldValue;
-use serde_json::Value;
+use serde_json::{json, Value};
 
 fn s1(v: &str) -> FieldValue {
     FieldValue::String(v.into())
@@ -192,12 +192,21 @@ pub fn gen_c12(tier: &str, seed: u64, out: &mut dyn FnMut(Value)) {
                 if rng.chance(1, 2) {
                     e.id = *rng.pick(&[1i64, 2, 0, -1, -2, 4294967297, 4294967298, -4294967295, i64::MIN, i64::MAX]);
                 } else {
-                    e.source = rng.pick(&["s", "t", "u", "s-", "s--"]).to_string();
+                    e.source = rng.pick(&["s", "t", "u", "s-", "s--", "", "S"]).to_string();
                 }
             }
             events.push(e);
         }
         out(scenario_json(&rules, &events, &mut rng, "event sequence on one engine"));
+    }
+    // the same at a scale only the implementation is run at: more rules than a 16-bit index can address
+    for n_rules in if tier == "thorough" { vec![65_540usize, 70_000, 131_080] } else { vec![65_540usize] } {
+        let mut events = vec![];
+        for i in 0..12 {
+            let id = [1i64, 1, 2, 1, 3, 2, 1, 4294967297, 1, 2, 2, 1][i];
+            events.push(serde_json::json!({"source": "s", "id": id, "fields": [[["x"], {"s": if i % 5 == 4 { "0" } else { "1" }}], [["y"], {"s": if i % 2 == 0 { "1" } else { "0" }}]]}));
+        }
+        out(serde_json::json!({"op": "history_meta", "n_rules": n_rules, "events": events, "tag": "implementation only: used engine vs pristine clone, > 65536 rules", "nt": true}));
     }
     // long histories: thousands of distinct (source, id) pairs interleaved with a frequent one — more than a
     // bounded cache would keep, and long enough for any periodic clean-up to run
@@ -244,7 +253,12 @@ pub fn gen_c13(tier: &str, seed: u64, out: &mut dyn FnMut(Value)) {
         let mut sup = rules.clone();
         let k = 1 + rng.below(3);
         for j in 0..k {
-            let t = random_rule(&mut rng, &cfg, &format!("t{j}"), &[]);
+            let mut t = random_rule(&mut rng, &cfg, &format!("t{j}"), &[]);
+            if rng.chance(1, 4) && !rules.is_empty() {
+                // a retired (disabled) rule bearing the name of a rule of S: it is ignored entirely, wherever it sits
+                t.name = rng.pick(&rules).name.clone();
+                t.disable = Some(true);
+            }
             let pos = rng.below(sup.len() + 1);
             sup.insert(pos, t);
         }
@@ -306,4 +320,40 @@ pub fn gen_c09(tier: &str, seed: u64, out: &mut dyn FnMut(Value)) {
             .collect();
         out(scenario_json(&rules, &events, &mut rng, "rule sets x weird values"));
     }
+}
+
+/// C12 at a scale the model cannot be run at: the implementation alone, used engine against pristine clone (the
+/// property itself is the oracle; for the model the same statement is `C12_history_independent`, for any size)
+pub fn exec_history_meta(case: &Value) -> Value {
+    use std::fmt::Write as _;
+    let n = case["n_rules"].as_u64().unwrap_or(1000) as usize;
+    let mut y = String::with_capacity(n * 90);
+    for i in 0..n.saturating_sub(3) {
+        let _ = write!(y, "---\nname: f{i}\nmatch-on: {{events: {{other: [7]}}}}\nmatches: {{$a: \".x == '1'\"}}\ncondition: $a\n");
+    }
+    y.push_str("---\nname: dep.last\ntype: dependency\nmatches: {$a: \".x == '1'\"}\ncondition: $a\n");
+    y.push_str("---\nname: any.s\nmatch-on: {events: {s: []}}\nmatches: {$a: \".x == '1'\"}\ncondition: $a\nseverity: 3\n");
+    y.push_str("---\nname: uses.dep\nmatch-on: {events: {s: [1, 2]}}\nmatches: {$d: \"rule(dep.last)\", $b: \".y == '1'\"}\ncondition: $d and $b\nseverity: 2\n");
+    let mut c = gene::Compiler::new();
+    if let Err(e) = c.load_rules_from_str(&y) {
+        return json!({"load": format!("{e:?}")});
+    }
+    let eng = match gene::Engine::try_from(c) {
+        Ok(e) => e,
+        Err(e) => return json!({"compile": format!("{e:?}")}),
+    };
+    let pristine = eng.clone();
+    let mut used = eng;
+    for (i, ev) in case["events"].as_array().cloned().unwrap_or_default().iter().enumerate() {
+        let ev = match crate::event::event_from_json(ev) {
+            Ok(e) => e,
+            Err(e) => return json!({ "badevent": e }),
+        };
+        let a = crate::scenario::scan_outcome(&mut used, &ev);
+        let b = crate::scenario::scan_outcome(&mut pristine.clone(), &ev);
+        if a != b {
+            return json!({"differs": {"event": i, "used": a, "fresh": b}});
+        }
+    }
+    json!({"consistent": true})
 }
